@@ -31,6 +31,7 @@ type KnownFinding struct {
 	Status     string `json:"status"` // known | fixed
 	Commit     string `json:"commit,omitempty"`
 	What       string `json:"what"`
+	When       string `json:"when,omitempty"` // contract-language predicate (in the obligation's own environment) isolating the failing case
 	Witness    string `json:"witness,omitempty"`
 }
 
@@ -49,7 +50,7 @@ func readJSON(path string, v any) error {
 
 func stableKind(name string) bool {
 	// obligations whose names do not depend on instruction ordinals
-	for _, p := range []string{"post/", "frame/", "cover/"} {
+	for _, p := range []string{"post/", "frame/", "cover/", "at@", "at-unmatched/"} {
 		if strings.HasPrefix(name, p) {
 			return true
 		}
@@ -108,6 +109,12 @@ func cmdCheck(args []string) int {
 	}
 	seed, _ := strconv.Atoi(os.Getenv("VERIF_SEED"))
 	vr := verifRoot()
+	// outRoot: where evidence/ and out/ are written (redirected when a scratch
+	// copy of the repository is being checked, so real evidence is not clobbered)
+	outRoot := vr
+	if o := os.Getenv("GVC_OUT"); o != "" {
+		outRoot = o
+	}
 	var props map[string]*PropConfig
 	if err := readJSON(filepath.Join(vr, "props.json"), &props); err != nil {
 		fmt.Fprintln(os.Stderr, "props.json:", err)
@@ -118,14 +125,13 @@ func cmdCheck(args []string) int {
 		fmt.Fprintln(os.Stderr, "unknown property", id)
 		return 2
 	}
-	var known []KnownFinding
-	_ = readJSON(filepath.Join(vr, "known_findings.json"), &known)
 	e, err := loadEngine()
 	if err != nil {
 		// the tree does not load: nothing can be decided
 		fmt.Fprintln(os.Stderr, "gvc: cannot load repository:", err)
 		return 2
 	}
+	known := e.known
 	// functions under contract for this property
 	keyset := map[string]bool{}
 	for _, k := range pc.Functions {
@@ -182,7 +188,7 @@ func cmdCheck(args []string) int {
 	if tier == "thorough" {
 		timeout = 60
 	}
-	outDir := filepath.Join(vr, "out", id)
+	outDir := filepath.Join(outRoot, "out", id)
 	os.RemoveAll(outDir)
 	if err := e.solveAll(results, timeout, 16, filepath.Join(outDir, "vc")); err != nil {
 		fmt.Fprintln(os.Stderr, "gvc:", err)
@@ -226,6 +232,7 @@ func cmdCheck(args []string) int {
 	var all []oblReport
 	var slow []string
 	covers, coversOK := 0, 0
+	var staleKnown, knownCases []string
 	for _, r := range results {
 		if r.Err != nil {
 			fails = append(fails, failure{fn: r.Fn, name: "vcgen", reason: "generator-error: " + r.Err.Error()})
@@ -237,6 +244,15 @@ func cmdCheck(args []string) int {
 			solverSecs += v.Secs
 			rep := oblReport{Fn: shortCallee(r.Fn), Name: o.Name, Desc: o.Desc, Pos: o.Pos, Answer: v.Answer, By: v.By, Secs: v.Secs}
 			all = append(all, rep)
+			if o.Known {
+				// the recorded finding: report it; if it became provable the entry is stale
+				if v.Answer == "unsat" {
+					staleKnown = append(staleKnown, shortCallee(r.Fn)+" :: "+o.Name)
+				} else {
+					knownCases = append(knownCases, shortCallee(r.Fn)+" :: "+strings.TrimSuffix(o.Name, "/known-case")+" — "+o.Desc)
+				}
+				continue
+			}
 			if o.Cover {
 				covers++
 				if v.Answer == "covered" {
@@ -279,7 +295,7 @@ func cmdCheck(args []string) int {
 	isKnown := func(f failure) *KnownFinding {
 		for i := range known {
 			k := &known[i]
-			if k.Property == id && k.Status == "known" && k.Fn == f.fn && k.Obligation == f.name {
+			if k.Property == id && k.Status == "known" && k.When == "" && k.Fn == f.fn && k.Obligation == f.name {
 				return k
 			}
 		}
@@ -287,7 +303,14 @@ func cmdCheck(args []string) int {
 	}
 	violations := 0
 	var knownHit []string
-	replayDir := filepath.Join(vr, "out", "replay", id)
+	for _, kc := range knownCases {
+		fmt.Printf("KNOWN-FINDING: property=%s %s\n", id, kc)
+		knownHit = append(knownHit, kc)
+	}
+	for _, sk := range staleKnown {
+		fmt.Printf("NOTE: known finding %s no longer fails (stale entry in known_findings.json)\n", sk)
+	}
+	replayDir := filepath.Join(outRoot, "out", "replay", id)
 	os.RemoveAll(replayDir)
 	for _, f := range fails {
 		if k := isKnown(f); k != nil {
@@ -385,9 +408,9 @@ func cmdCheck(args []string) int {
 		"wall_s":      time.Since(t0).Seconds(),
 		"violations":  violations,
 	}
-	os.MkdirAll(filepath.Join(vr, "evidence"), 0o755)
+	os.MkdirAll(filepath.Join(outRoot, "evidence"), 0o755)
 	bs, _ := json.MarshalIndent(ev, "", " ")
-	if err := os.WriteFile(filepath.Join(vr, "evidence", id+".json"), append(bs, '\n'), 0o644); err != nil {
+	if err := os.WriteFile(filepath.Join(outRoot, "evidence", id+".json"), append(bs, '\n'), 0o644); err != nil {
 		fmt.Fprintln(os.Stderr, err)
 		return 2
 	}
